@@ -327,9 +327,7 @@ fn use_generics(e: &mut EnumSpec) {
     if e.lifetime && !uses(e, FieldTy::RefStr) {
         need.push(FieldTy::RefStr);
     }
-    if e.const_param && !uses(e, FieldTy::Phantom) {
-        need.push(FieldTy::Phantom);
-    }
+    // (a const parameter need not be used)
     if need.is_empty() {
         return;
     }
@@ -475,6 +473,9 @@ pub fn gen_string(rg: &mut Rg, cfg: &GenCfg) -> EnumSpec {
         e.type_param2 = e.type_param && rg.chance(1, 3);
         e.where_clause = e.type_param && rg.chance(1, 2);
         e.generic_defaults = (e.type_param || e.const_param) && rg.chance(1, 4);
+    } else if cfg.allow_generics {
+        // field-less enums can still carry an (unused) const parameter
+        e.const_param = rg.chance(1, 6);
     }
     // enum-level attributes
     let mut eattrs = Vec::new();
